@@ -10,6 +10,18 @@ impl vstd::std_specs::convert::FromSpecImpl<u32> for TextSize {
 }
 impl From<u32> for TextSize { fn from(raw: u32) -> Self { TextSize { raw } } }
 impl TextRange { fn empty(at: TextSize) -> (r: TextRange) ensures r == (TextRange { start: at.raw, end: at.raw }) { TextRange { start: at.raw, end: at.raw } } }
+// the rest of the text-size API a refactoring of the error-reporting code is likely to reach for (same two-field meaning)
+impl TextSize {
+    fn of(text: &str) -> (r: TextSize) ensures r.raw == text.len() as u32 { TextSize { raw: text.len() as u32 } }
+}
+impl TextRange {
+    fn new(start: TextSize, end: TextSize) -> (r: TextRange) requires start.raw <= end.raw ensures r == (TextRange { start: start.raw, end: end.raw }) { TextRange { start: start.raw, end: end.raw } }
+    fn at(offset: TextSize, len: TextSize) -> (r: TextRange) requires offset.raw + len.raw <= u32::MAX ensures r == (TextRange { start: offset.raw, end: (offset.raw + len.raw) as u32 }) { TextRange { start: offset.raw, end: offset.raw + len.raw } }
+    fn start(self) -> (r: TextSize) ensures r.raw == self.start { TextSize { raw: self.start } }
+    fn end(self) -> (r: TextSize) ensures r.raw == self.end { TextSize { raw: self.end } }
+    fn len(self) -> (r: TextSize) requires self.start <= self.end ensures r.raw == self.end - self.start { TextSize { raw: self.end - self.start } }
+    fn is_empty(self) -> (r: bool) ensures r == (self.start == self.end) { self.start == self.end }
+}
 
 // ---------- rowan's green-tree builder, as far as Parser::build_tree uses it (assumed contracts on a dependency) ----------
 // The builder is specified by the TRACE of calls made on it (ghost view); what rowan makes of a trace is assumption (iii):
